@@ -24,10 +24,20 @@ pub enum HasherKind {
 
 thread_local! {
     static CURRENT: Cell<HasherKind> = const { Cell::new(HasherKind::Seeded(1, 2)) };
+    /// number of hasher instances created since the configuration was set: like RandomState,
+    /// every `Default::default()` of the seeded kind is keyed differently — but replayably
+    static INSTANCES: Cell<u64> = const { Cell::new(0) };
 }
 
 pub fn set_current(k: HasherKind) {
+    if CURRENT.with(|c| c.get()) != k {
+        INSTANCES.with(|c| c.set(0));
+    }
     CURRENT.with(|c| c.set(k))
+}
+/// start of a run: instance numbering restarts, so that a run does not depend on its predecessors
+pub fn reset_instances() {
+    INSTANCES.with(|c| c.set(0));
 }
 pub fn current() -> HasherKind {
     CURRENT.with(|c| c.get())
@@ -54,7 +64,17 @@ impl DynState {
 
 impl Default for DynState {
     fn default() -> Self {
-        DynState::of(current())
+        match current() {
+            HasherKind::Seeded(a, b) => {
+                let n = INSTANCES.with(|c| {
+                    let n = c.get();
+                    c.set(n + 1);
+                    n
+                });
+                DynState::Seeded(a.wrapping_add(n.wrapping_mul(0x9E37_79B9_7F4A_7C15)), b ^ n)
+            }
+            k => DynState::of(k),
+        }
     }
 }
 
